@@ -266,11 +266,18 @@ def EW.addBlob (e : EW) (data : Bytes) : Outcome (EW × BlobRef) := do
   let (pw, b) ← blobWrite e.pw data
   pure ({ e with pw := pw }, b)
 
+/-- the XML 1.0 `Char` production -/
+def xmlChar (c : Char) : Bool :=
+  c == '\t' || c == '\n' || c == '\r' || (0x20 ≤ c.toNat && c.toNat ≤ 0xD7FF) || (0xE000 ≤ c.toNat && c.toNat ≤ 0xFFFD)
+    || (0x10000 ≤ c.toNat && c.toNat ≤ 0x10FFFF)
+
 /-- `finalize_customized_xml`; `transform` is the caller's XML transformer (`none` = it failed) -/
 def EW.finalize (ft : FloatText) (e : EW) (transform : String → Option String) : Outcome EW := do
   match serializeRoot ft e.root e.pcs e.imgs e.exts with
   | none => .err "Empty file GUID is not allowed"
   | some xml =>
+    -- strings and URLs are written as they are; a character XML cannot carry would make the file unreadable
+    if !(xml.toList.all xmlChar) then .err "a string contains a character that cannot be stored in XML" else
     match transform xml with
     | none => .err "transformer failed"
     | some xml =>
